@@ -91,6 +91,11 @@ func (a *Act) builtin(st *State, f *ssa.Builtin, args []Val, c *ssa.CallCommon, 
 	case "close":
 		ch := args[0]
 		a.chanTypeFact(st, ch)
+		if a.top != nil {
+			a.top.didClose = true
+		} else {
+			a.didClose = true
+		}
 		// site close <channel expression suffix>: assertion at this close (the separate-file form of an inline assert)
 		if a.con != nil && !a.inlined && vc.quiet == 0 && a.curCall != nil && len(a.curCall.Args) == 1 {
 			prov := provenance(a.curCall.Args[0], 0)
